@@ -27,7 +27,7 @@ CFG = dict(
                "property's 12-symbol alphabet with and without .gr under all four IO-flag combinations, on all 256 byte values and on random longer "
                "names, and the length-6 sweep (thorough) is compared with a Go re-statement; 16 child processes (one per configuration) give the "
                "registration table; 7 child processes run save/load/image.save/exec/run programs through repl.EvalStringWithOption inside a "
-               "scratch tree with decoys, the tree is diffed after every case and compared with the model's file system. A model-free oracle "
+               "scratch tree with decoys, the tree is diffed after every case and compared with the model's file system. The production binary is also run under strace on script files located in the parent, a sibling and a subdirectory of the working directory (plain and -s mode, relative and absolute path) with decoy libraries next to the script. A model-free oracle "
                "states the property directly on those observations.",
     level_note="Trusted: Coq kernel, extraction (ExtrOcamlBasic), OCaml driver, Go harness, translator; axioms: none (Print Assumptions: closed "
                "under the global context for all 15 theorems). Modelled, not verified: the Go code; the kernel's path resolution (symbolic links "
